@@ -21,8 +21,8 @@ EXPLANATION = ("Purity is about object identity and mutation, which a functional
                "sources are merged once more and the result (tree, unused list, extracted values) is compared with the Lean "
                "fetch model applied to the ORIGINAL texts - a function of its inputs, so 'repeatable and inputs unchanged' "
                "is checked against one fixed mathematical value rather than against an earlier run.")
-LEVEL_TEXT = 'Lean theorems about an object-identity (heap) model of copy / customized_copy / deepcopy / pickle: the deep copy denotes the same tree (deepcopy_isomorphic), consists of new objects only (deepcopy_disjoint), every child of a copied scope has that copy as parent (deepcopy_children_linked), no existing cell is written and ANY later history of field assignments to the copy leaves every original unchanged (deepcopy_frame, deepcopy_assign_frame); a shallow copy is one new cell sharing the child objects (copy_shares) and assignments to its fields leave the original unchanged (copy_assign_frame); kernel-checked witness template_copy_shares_master_children = finding D21; effect-summary lifting history_pure / call_frame. The heap model is tied to /repo by a correspondence run on identity graphs (id()-based) of real objects after each copy operation on masters and fetch results; purity of every API call is validated by slot snapshots around random call histories, incl. parses under three converter registries; the fetch of the long-lived objects after every history is compared with the fetch model on the original texts.'
-LEVEL_NOTE = "level 'other': copies are proved on the heap model; purity of fetch / extract / format / interpret themselves is validated per call (effect summaries), the lifting to all histories is proved. deepcopy totality is a hypothesis (deepcopy h x = some c). Known finding D21."
+LEVEL_TEXT = "Lean theorems about an object-identity (heap) model of copy / customized_copy / deepcopy / pickle: deepcopy is total on every closed heap and every parsed document's heap is well-formed (deepcopy_total, heapOfText_wf, deepcopy_of_parsed_document); the deep copy denotes the same tree, consists of new objects only, every child of a copied scope has that copy as parent, no existing cell is written and ANY later history of field assignments to the copy leaves every original unchanged (deepcopy_isomorphic_total, _disjoint_total, _children_linked_total, _assign_frame_total); a shallow copy is one new cell sharing the child objects and assignments to its fields leave the original unchanged (copy_shares, copy_assign_frame); the template-copy step of fetch shares exactly the master's children (fetchTemplate_* = finding D21 stated positively); effect-summary lifting history_pure / call_frame. The heap model is tied to /repo by a correspondence run on identity graphs (id()-based) of real objects after each copy operation on masters and fetch results; purity of every API call is validated by slot snapshots around random call histories, incl. parses under three converter registries and a SHARED argument interpreter compared with fresh ones; the fetch of the long-lived objects after every history is compared with the fetch model on the original texts."
+LEVEL_NOTE = "level 'other': copies are proved on the heap model; purity of fetch / extract / format / interpret themselves is validated per call (effect summaries), the lifting to all histories is proved. CPython's recursion limit (deepcopy beyond ~200 nested scopes) is outside the unbounded-stack model. Known finding D21."
 TECHNIQUE = 'Lean 4 theorems on a heap (object identity) model + identity-graph correspondence + run-time validation of per-call write/share summaries'
 RULE = ("masters and source lists x histories of 5-25 API calls (fetch with/without tracking, fetch_diff, extract, format, clone, "
         "as_str at every level, argument interpretation, resolve, pickle/deepcopy/copy round trips, field assignments on "
